@@ -1,7 +1,8 @@
 """C10 - asking for help or version always wins and never runs the program."""
 from vlib import *
 import defs as D
-from cmdline_check import run_cmdline_property
+from cmdline_check import run_cmdline_property, merge_cov
+import linegen
 import cmdline_sig, random
 
 
@@ -32,6 +33,17 @@ def run(v):
                                                              extras=("dd", "help", "ver", "unk")),
                                        "n": 15000 if v.tier == "quick" else 300000, "maxlen": 10, "mutate": 0.9,
                                        "extras": ("help", "ver")})
+    # help next to / inside (failing) adjacent groups and choices (GroupLine engine)
+    q = v.tier == "quick"
+    gfam = D.adj_family(SEED + 14, 12 if q else 60, maxlen=4 if q else 5, budget=4000 if q else 50000) + \
+        D.alt_family(SEED + 15, 8 if q else 40, maxlen=3 if q else 4, budget=4000 if q else 50000)
+    for d in gfam:
+        d["alpha"]["extras"] = ["help"]
+        D.galpha_trim(d, 4000 if q else 50000)
+        d["alpha"]["extras"] = ["help"]
+    gcov = run_cmdline_property(v, gfam, None, replay_cfg="MC_GroupLine_replay.cfg", module="MC_GroupLine",
+                                signature=cmdline_sig.signature, trace_module="GroupLineTrace", name="C10g")
+    cov = merge_cov(cov, gcov, "groupline")
     cov["rule"] = ("every line up to maxlen over alphabets that contain the help and version items at every position "
                    "(after command names, between an argument name and its value, on valid/invalid/incomplete lines); "
                    "non-trivial = non-empty line inside the quantifier")
